@@ -464,6 +464,31 @@ class FilterSummary:
         if const_num(r) != 0:
             return None
         cdef = self._single_def(l, s)
+        nan_to_feasible = None
+        if isinstance(l, ast.Name) and cdef is l:
+            # the constraint values, possibly sanitised in between: C = cons(X); [if any NaN:] C = np.nan_to_num(C, nan=inf)
+            raw, ok_ = [], True
+            for d_ in self._defs_of(l.id, s):
+                if isinstance(d_, ast.Call) and canon(d_.func) == self.p_cons and d_.args:
+                    raw.append(d_)
+                    continue
+                repl = None
+                if isinstance(d_, ast.Call) and call_name(d_) == "np.nan_to_num" and d_.args and canon(d_.args[0]) == l.id:
+                    kn = kw(d_, "nan") or (d_.args[2] if len(d_.args) > 2 else None)
+                    repl = 0.0 if kn is None else const_num(kn)
+                    if kw(d_, "posinf") is not None or kw(d_, "neginf") is not None:
+                        ok_ = False
+                elif isinstance(d_, ast.Call) and call_name(d_) == "np.where" and len(d_.args) == 3 and canon(d_.args[0]) == f"np.isnan({l.id})" and canon(d_.args[2]) == l.id:
+                    repl = const_num(d_.args[1])
+                else:
+                    ok_ = False
+                    continue
+                if repl is None:
+                    ok_ = False
+                elif not (repl > 0):
+                    nan_to_feasible = d_
+            if ok_ and len(raw) == 1:
+                cdef = raw[0]
         if not (isinstance(cdef, ast.Call) and canon(cdef.func) == self.p_cons and cdef.args):
             return None
         xdef = self._single_def(cdef.args[0], s)
@@ -474,6 +499,8 @@ class FilterSummary:
             return Stage("constraint", s, detail, False, f"rows with C {'>=' if op is ast.GtE else '>' if op is ast.Gt else op.__name__} 0 are kept: violating candidates pass the filter")
         if not inv_ok:
             return Stage("constraint", s, detail, False, "the constraint callable is not evaluated on the inverse transform of the very rows that are selected")
+        if nan_to_feasible is not None:
+            return Stage("constraint", s, detail, False, f"constraint values that are NaN are replaced by a non-positive number ({canon(nan_to_feasible)[:50]}) before the test C <= 0: a point whose constraint cannot be computed passes as feasible")
         if nan_loose:
             return Stage("constraint", s, detail, False, "the mask is the negation of 'violated' (not (C > 0)): a row whose constraint value is NaN is neither violated nor satisfied and is kept")
         return Stage("constraint", s, detail, True, keeps)
